@@ -258,6 +258,14 @@ Definition collision_desc : desc :=
      d_files := [File (bytes "p/v1/a.proto") (bytes "p.v1")
                    [bytes "p.v1.Col"; bytes "p.v1.Col.Inner"; bytes "p.v1.Col_Inner"] []] |}.
 
+(* the reflected set and the entry of the third message, as closed terms (so that the checks below are
+   conversions of closed terms) *)
+Definition collision_set : sset :=
+  match reflect collision_desc (d_files collision_desc) with Ok st => st | _ => [] end.
+Definition collision_m : msgd := nth 2 (d_msgs collision_desc) (Msg [] [] [] [] [] None None []).
+Definition collision_r : root :=
+  match lookup collision_set (msg_key collision_m) with Some (Linked r) => r | _ => REnum [] [] [] [] [] end.
+
 Theorem C18_split_name_collision_refuted :
   enums_nonempty collision_desc /\
   (exists S m r, reflect collision_desc (d_files collision_desc) = Ok S /\ length S = 2%nat /\
@@ -269,7 +277,8 @@ Proof.
   assert (Hw : exists S m r, reflect collision_desc (d_files collision_desc) = Ok S /\ length S = 2%nat /\
      In m (d_msgs collision_desc) /\ lookup S (msg_key m) = Some (Linked r) /\
      codec_classes collision_desc S m r = (0%N, 1%N)).
-  { eexists. eexists. eexists. split; [vm_compute; reflexivity|]. split; [reflexivity|].
+  { exists collision_set, collision_m, collision_r.
+    split; [vm_compute; reflexivity|]. split; [vm_compute; reflexivity|].
     split; [right; right; left; reflexivity|]. split; vm_compute; reflexivity. }
   split; [exact Hw|].
   intros H. destruct Hw as (S & m & r & HS & _ & Hm & Hl & Hc).
@@ -399,6 +408,7 @@ Qed.
 (* the hypotheses of C18_codec_usable_on_supported are met by both messages of the example (an object
    with a recursive field, an array of objects, a bool with a rule, an enum; an object that flattens
    the first), and the conclusion computes *)
+Definition ex_set : sset := match reflect ex_desc (d_files ex_desc) with Ok st => st | _ => [] end.
 Example C18_example_codec :
   exists S, reflect ex_desc (d_files ex_desc) = Ok S /\
     forallb (fun m =>
@@ -412,7 +422,7 @@ Example C18_example_codec :
           end
       | _ => false
       end) (d_msgs ex_desc) = true.
-Proof. eexists. split; vm_compute; reflexivity. Qed.
+Proof. exists ex_set. split; vm_compute; reflexivity. Qed.
 
 (* the cache theorems' hypotheses on the example: two histories (Peer then Node; Node alone) reach
    states that answer Node with the same schema, which is the declared one *)
